@@ -15,6 +15,10 @@ NA = {
  "C19": "strategy applicability is a pure function of the basis",
 }
 CHECKS = {
+ "C13": dict(engine="histsim", category="exploration", design_ref="DESIGN.md section 3 / C13",
+   text="Seeded search over call histories on the process-wide memo tables: a pool of bases over a small shared universe of permutations (including rotated / inverted images of each other) is queried through every entry point - permutils functions, Av methods, the poly / insenc CLI functions in-process - with the basis delivered as list, tuple, set, frozenset, Basis, dict view, deque, generator, one-shot iterator, map or reversed object, permuted and with repetitions, and on its eight symmetric images (computed by the reference, not by permuta), with the memo tables flushed as a fault; every verdict is compared with the structure theorems re-implemented by split search, and the verdicts are cross-checked against real enumeration through Av (Erdos-Szekeres bound, no empty level, Fibonacci lower bound).",
+   note="Trusted: ref/growth.py (ten classes by brute-force split search, pinned by 2^n-n, 2^(n-1), Fibonacci counts and by the inverse relation between vertical and horizontal classes). Basis permutations of length <= 5 (6 in thorough), enumeration to length 6-7.",
+   technique="deterministic simulation of call histories over shared memo tables with stream-kind and memo-loss faults, seeded search, structure-theorem oracle plus enumeration cross-checks"),
  "C20": dict(engine="histsim+simfs", category="fault_enumeration", design_ref="DESIGN.md section 3 / C20",
    text="Three parts. (1) Shipped data: complete enumeration - every shipped file is read through the real read_bisc_file and every level 0..N is compared with an independent definition of the named property on all n! permutations (about 1.9 million pairs, full stated length in both tiers). (2) Seeded write/read/store/load histories on an in-memory file system behind the modules' open / Path / os, strict oracle: a read returns exactly the dataset last written under that name, a never-written name is reported invalid, every automaton loaded from the database (also unions, also after restarts and chdir) is language-equivalent to a fresh computation; a sample of the histories also runs on a real temporary directory and must observe the same. (3) The same histories under injected faults: for histories of at most 6 operations every single-fault placement (each I/O call x error/crash x three write offsets), for longer ones seeded placements of up to 3 faults, plus power-loss restarts; relaxed oracle: old, new or reported invalid - never other data, never an automaton of another language.",
    note="Trusted: ref/families.py (independent definitions pinned by OEIS sequences), ref/dfa.py (product BFS), the simfs model (validated against a real directory on sampled histories), PinWords.make_dfa_for_perm of the tree under test as the 'fresh computation'. Two emptied shipped files are listed known findings.",
